@@ -1,17 +1,20 @@
 """C10 - configuration is applied faithfully; erroneous configuration is rejected whole.
 
-enumx: bounded-exhaustive enumeration of configurations over the generated module classes vf.genmods.GA / GN / GD
-(recording fake driver), every configuration built by the real frappy.config.Mod / Param DSL and started by the real
+enumx: bounded-exhaustive enumeration of configurations over the generated module classes vf.genmods.GA / GN / GD / GQ
+(enablePoll = False) / GH (enablePoll = False, attached to an io module through HasIO) / GO (inherits optional accessibles
+it does not implement) / GOI (implements the optional parameter), recording fake driver, every configuration built by the real frappy.config.Mod / Param DSL and started by the real
 Server._processCfg (vf.nodes.Node: SecNode, Dispatcher, Module.__init__, error aggregation, sys.exit captured as
 StartupRefused).
 
   valid   per class: every set of <= K (quick 3, thorough 4) entries of the class's entry catalogue {module property; parameter
           value as bare value / as Param(v); value at / inside / outside the limits; min / max / unit / visibility / export /
-          readonly overrides; default; constant}, no two entries on the same (accessible, key).  After start-up the poll
-          thread's start-up part is run sequentially: writeInitParams(), initialReads(), one read_<p> per polled parameter,
-          doPoll() (PollInfo as __pollThread creates it).
-  errors  nodes of 1..2 (thorough 3) modules (all class tuples), 1..2 (3) entries of the error catalogue {unknown name; unknown
-          parameter property; value of the wrong type (parameter value, default, module property, datatype property); missing
+          readonly overrides; default; constant}, no two entries on the same (accessible, key).  After start-up the REAL
+          poll thread body Module.__pollThread(polledModules, started_callback) of every module owning a poll thread is
+          executed in the calling thread (virtual clock bound to frappy.modulebase.time, the thread's trigger event replaced
+          by one whose wait() ends the run): writeInitParams / initialReads of all modules of the thread, the first reads,
+          the started callback, the first doPoll - up to the first wait.
+  errors  nodes of 1..2 (thorough 3) modules (all class tuples), 1..2 (3) entries of the error catalogue {unknown name - also
+          the name of an optional accessible of a base class that the class does not implement; unknown parameter property; value of the wrong type (parameter value, default, module property, datatype property); missing
           mandatory property / needscfg parameter not given; inverted limits} spread over the modules in every way, every
           module in addition with one of its representative valid contexts.
   files   the same module configurations written as config *files* to a scratch directory (tempfile.mkdtemp, removed
@@ -47,7 +50,6 @@ import os
 import re
 import shutil
 import tempfile
-import threading
 
 from vf import core
 from vf import genmods     # noqa: F401  registers the alias module frappy_verif_g (classes are created on first use)
@@ -77,6 +79,21 @@ MODEL = {
         'n': dict(kind='double', lo=0.0, hi=10.0, wire='_n', readonly=False, write=True, default=None),
         'f': dict(kind='double', lo=0.0, hi=10.0, wire='_f', readonly=False, write=True, default=1.0),
     },
+    'GQ': {
+        'g': dict(kind='double', lo=0.0, hi=100.0, wire='_g', readonly=False, write=True, default=1.0),
+        'h': dict(kind='string', wire='_h', readonly=False, write=False, default=''),
+    },
+    'GH': {
+        'g': dict(kind='double', lo=0.0, hi=100.0, wire='_g', readonly=False, write=True, default=1.0),
+        'h': dict(kind='string', wire='_h', readonly=False, write=False, default=''),
+    },
+    'GO': {
+        'f': dict(kind='double', lo=0.0, hi=10.0, wire='_f', readonly=False, write=True, default=1.0),
+    },
+    'GOI': {
+        'f': dict(kind='double', lo=0.0, hi=10.0, wire='_f', readonly=False, write=True, default=1.0),
+        'opt': dict(kind='double', lo=0.0, hi=100.0, wire='_opt', readonly=False, write=True, default=1.0),
+    },
     'GD': {
         'value': dict(kind='double', lo=0.0, hi=100.0, wire='value', readonly=True, write=False, default=0.0),
         'target': dict(kind='double', lo=0.0, hi=100.0, wire='target', readonly=False, write=True, default=0.0),
@@ -85,6 +102,10 @@ MODEL = {
     },
 }
 VISIBILITY = {'user': 1, 'advanced': 2, 'expert': 3}
+POLLED = {'GA': True, 'GN': True, 'GD': True, 'GQ': False, 'GH': False, 'GO': True, 'GOI': True}    # enablePoll of the class
+# optional accessibles declared by a base class and NOT implemented by the class: they do not exist on its modules
+UNIMPLEMENTED = {'GO': {'opt', 'ocmd'}, 'GOI': {'ocmd'}}
+AUX_IO = 'mod_io'      # auxiliary io module (class GIO) present in every node with a GH module
 
 # entry: (id, target accessible ('' = the module itself), key, form, value)      form: 'bare' | 'param' (only for key 'value')
 ENTRIES = {
@@ -119,16 +140,25 @@ ENTRIES = {
         ('poll=1.5', 'pollinterval', 'value', 'bare', 1.5), ('tvis', 'target', 'visibility', '', 'expert'),
     ],
 }
-# entries every valid configuration of the class contains (needscfg parameter, mandatory property)
+for _c in ('GQ', 'GH'):
+    ENTRIES[_c] = [('grp', '', 'group', 'bare', 'grp'), ('g=5', 'g', 'value', 'bare', 5), ('g=P7.5', 'g', 'value', 'param', 7.5),
+                   ('gmax', 'g', 'max', '', 50), ('gmin', 'g', 'min', '', 2), ('gvis', 'g', 'visibility', '', 'expert'),
+                   ('h=x', 'h', 'value', 'bare', 'x')]
+ENTRIES['GO'] = [('fmax', 'f', 'max', '', 8), ('f=3', 'f', 'value', 'bare', 3), ('grp', '', 'group', 'bare', 'grp')]
+ENTRIES['GOI'] = [('opt=5', 'opt', 'value', 'bare', 5), ('optmax', 'opt', 'max', '', 10), ('optdef', 'opt', 'default', '', 4),
+                  ('f=3', 'f', 'value', 'bare', 3)]
+# entries every valid configuration of the class contains (needscfg parameter, mandatory property, io module)
 REQUIRED = {
-    'GA': [], 'GD': [],
+    'GA': [], 'GD': [], 'GQ': [], 'GO': [], 'GOI': [],
     'GN': [('n=3', 'n', 'value', 'bare', 3), ('mp', '', 'mp', 'bare', 'x')],
+    'GH': [('io', '', 'io', 'bare', AUX_IO)],
 }
 # representative valid contexts (lists of entry ids) a module carries in the error configurations
 CONTEXTS = {
     'GA': [[], ['f=P2.5'], ['fmax', 'grp']],
     'GN': [[], ['fmax']],
     'GD': [[], ['t=20'], ['tmax']],
+    'GQ': [[], ['g=5']], 'GH': [[], ['g=5']], 'GO': [[]], 'GOI': [[], ['opt=5']],
 }
 # error: (id, category, kind, payload)
 #   kind 'add': payload = (target, key, value) extra entry;  kind 'drop': payload = id of a REQUIRED entry that is left out
@@ -167,7 +197,18 @@ ERRORS = {
         ('inv-t', 'inverted-limits', 'add2', (('ramp', 'min', 15), ('ramp', 'max', 5))),
     ],
 }
-CLASSES = ['GA', 'GN', 'GD']
+ERRORS['GQ'] = [('unk-name', 'unknown-name', 'add', ('nosuch', 'value', 1)), ('type-g', 'wrong-type', 'add', ('g', 'value', 'x'))]
+ERRORS['GH'] = [('unk-name', 'unknown-name', 'add', ('nosuch', 'value', 1))]
+ERRORS['GO'] = [
+    ('unimpl-opt-value', 'unknown-name', 'add', ('opt', 'value', 5)),
+    ('unimpl-opt-prop', 'unknown-name', 'add', ('opt', 'max', 10)),
+    ('unimpl-optcmd-prop', 'unknown-name', 'add', ('ocmd', 'visibility', 'expert')),
+    ('unk-name', 'unknown-name', 'add', ('nosuch', 'value', 1)),
+]
+ERRORS['GOI'] = [('unimpl-optcmd-prop', 'unknown-name', 'add', ('ocmd', 'visibility', 'expert'))]
+CLASSES = ['GA', 'GN', 'GD', 'GQ', 'GH', 'GO', 'GOI']
+WIDE_CLASSES = ['GA', 'GN', 'GD', 'GQ', 'GO']      # class tuples of the 3-module nodes (thorough)
+FILE_CLASSES = ['GA', 'GN', 'GD', 'GQ', 'GO', 'GOI']   # GH needs the auxiliary io module: direct mode only
 MODNAMES = ['mod_a', 'mod_b', 'mod_c']
 
 
@@ -423,21 +464,65 @@ def close_node(node):
         pass
 
 
-def run_startup(mod):
-    """the start-up part of Module.__pollThread, sequentially"""
-    from frappy.modulebase import PollInfo
-    steps = 0
-    mod.pollInfo = PollInfo(mod.pollinterval, threading.Event())
-    mod.writeInitParams()
-    mod.initialReads()
-    steps += 2
-    for pname in list(mod.parameters):
-        rfunc = getattr(mod, 'read_' + pname)
-        if rfunc.poll:
-            mod.callPollFunc(rfunc)
-            steps += 1
-    mod.callPollFunc(mod.doPoll)
-    return steps + 1
+class StopStartup(Exception):
+    """raised by the fake trigger event: the poll thread reached its first wait"""
+
+
+class FakeTrigger:
+    """stands in for the trigger event of one poll thread: the first wait ends the run"""
+    def __init__(self):
+        self.waits = 0
+
+    def wait(self, timeout=None):
+        self.waits += 1
+        raise StopStartup()
+
+    def set(self):
+        pass
+
+    def clear(self):
+        pass
+
+    def is_set(self):
+        return False
+
+
+class VirtualClock:
+    """bound to the name `time` in frappy.modulebase while the poll thread bodies run"""
+    def __init__(self):
+        self.now = 1.7e9
+
+    def time(self):
+        self.now += 0.001
+        return self.now
+
+    def sleep(self, t):
+        self.now += t
+
+
+def real_startup(node):
+    """execute the real Module.__pollThread body of every module owning a poll thread, in the calling thread, up to the first
+    wait on its trigger event (start-up part + first doPoll round).  -> (number of thread bodies run, how they ended)"""
+    import frappy.modulebase as mb
+    owners = [m for m in node.secnode.modules.values() if m.polledModules]
+    ends = []
+    saved = mb.time
+    mb.time = VirtualClock()
+    try:
+        for owner in owners:
+            owner.triggerPoll = FakeTrigger()
+            started = []
+            try:
+                owner._Module__pollThread(owner.polledModules, lambda st=started: st.append(1))
+                end = 'returned'           # no polled module in this thread
+            except StopStartup:
+                end = 'first-wait'
+            for m in owner.polledModules:
+                m.__dict__.setdefault('c10_thread', []).append((owner.name, end, len(started)))
+            ends.append(end)
+    finally:
+        mb.time = saved
+    return len(owners), ends
 
 
 def kinds(cls, items):
@@ -450,13 +535,16 @@ def kinds(cls, items):
 
 
 def check_valid(part, node, name, cls, items, case, tag):
-    """all demands of the statement on a started node for one module"""
+    """all demands of the statement on a started node for one module.  A generator: it yields once, after the demands on the
+    freshly started node (start values, description); the caller then runs the real poll thread bodies of the node and resumes
+    it for the demands on the start-up (initial writes) and on later requests"""
     ref = Ref(cls, items)
     model = ref.model
     mod = node.secnode.modules.get(name)
     where = f'{tag} {name}({cls}) configured with {describe_items(items)}'
     if mod is None:
         part.violation(f'C10:module-missing-after-start', case, f'{where}: node started but the module is not registered')
+        yield
         return
     # 1. start values
     for p in ref.per:
@@ -482,6 +570,7 @@ def check_valid(part, node, name, cls, items, case, tag):
     part.transitions += 1
     if desc is None:
         part.violation(f'C10:module-not-described', case, f'{where}: module missing in the description')
+        yield
         return
     for key, val in ref.modprops.items():
         part.traces += 1
@@ -489,6 +578,8 @@ def check_valid(part, node, name, cls, items, case, tag):
             ok = desc.get('group') == val
         elif key == 'visibility':
             ok = desc.get('visibility') in (val, VISIBILITY[val])
+        elif key == 'io':
+            ok = getattr(getattr(mod, 'io', None), 'name', None) == val
         else:
             ok = getattr(mod, key, None) == val
         if ok:
@@ -550,12 +641,22 @@ def check_valid(part, node, name, cls, items, case, tag):
             else:
                 part.violation(f'C10:describe:{m["kind"]}:{key}-override-not-shown', case,
                                f'{where}: {p}.{key} configured as {val!r}; described {json.dumps(acc, default=repr)[:300] if acc else datainfo}')
-    # 3. start-up of the poll thread: configured values are written exactly once, before the first poll
-    part.transitions += run_startup(mod)
+    # 3. start-up of the poll thread (run by the caller for the whole node): configured values are written exactly once,
+    #    before the first poll
+    yield
     raw = list(mod.__dict__.get('drvraw', []))
     first_poll = next((i for i, ev in enumerate(raw) if ev[0] in ('read', 'doPoll')), len(raw))
-    if first_poll == len(raw):
-        part.violation(f'C10:harness:no-poll-recorded', case, f'{where}: no read/doPoll call recorded: {raw}')
+    threads = mod.__dict__.get('c10_thread', [])
+    if POLLED[cls]:
+        if first_poll == len(raw):
+            part.violation(f'C10:harness:no-poll-recorded', case, f'{where}: no read/doPoll call recorded: {raw}')
+        if len(threads) != 1 or threads[0][1:] != ('first-wait', 1):
+            part.violation(f'C10:poll-thread-start-up:not-completed', case,
+                           f'{where}: poll threads handling the module (owner, end, started callbacks): {threads}')
+    elif any('value' in c and model[p].get('write') for p, c in ref.per.items()) and len(threads) != 1:
+        part.violation(f'C10:poll-thread-start-up:unpolled-module-with-values-to-write-has-{len(threads)}-threads', case,
+                       f'{where}: poll threads handling the module: {threads}')
+    part.outcomes[f'module-handled-by:{"own" if threads and threads[0][0] == name else "io" if threads else "no"}-thread'] += 1
     for p, cfg in ref.per.items():
         m = model[p]
         if 'value' not in cfg or not m.get('write'):
@@ -681,6 +782,8 @@ def run_spec(part, spec, tag='direct', cfg=None, node_cfg=None, attribute=True):
     names = MODNAMES[:len(spec)]
     if cfg is None:
         cfg = {name: build_mod(name, cls, it) for name, (cls, _e, _r), it in zip(names, spec, items)}
+        if any(cls == 'GH' for cls, _e, _r in spec):
+            cfg[AUX_IO] = build_mod(AUX_IO, 'GIO', [])
     failing = [name for name, (_c, _e, errs) in zip(names, spec) if errs]
     part.evaluations += 1
     node, refused = start_node(cfg, node_cfg)
@@ -700,8 +803,15 @@ def run_spec(part, spec, tag='direct', cfg=None, node_cfg=None, attribute=True):
                                f'no error of the catalogue but start-up is refused: {refused.errors}')
                 return 'refused'
             part.outcomes['valid:started'] += 1
-            for name, (cls, _e, _r), it in zip(names, spec, items):
-                check_valid(part, node, name, cls, it, case, tag)
+            gens = [check_valid(part, node, name, cls, it, case, tag) for name, (cls, _e, _r), it in zip(names, spec, items)]
+            for g in gens:
+                next(g)                      # demands on the freshly started node
+            nthreads, ends = real_startup(node)
+            part.transitions += nthreads
+            part.outcomes[f'poll-threads:{nthreads}'] += 1
+            for g in gens:
+                for _ in g:                  # demands on the start-up and on later requests
+                    pass
             return 'started'
         # --- erroneous configuration
         part.states += 1
@@ -742,6 +852,8 @@ def error_class(cls, eid):
     else:
         pls = [payload] if kind == 'add' else list(payload)
         target = pls[0][0]
+        if target in UNIMPLEMENTED.get(cls, ()):
+            return f'{cat}:unimplemented-optional-accessible.' + '+'.join(pl[1] for pl in pls)
         tk = 'module' if target == '' else MODEL[cls].get(target, {}).get('kind', 'unknown-name')
         tk = 'command' if tk == 'command' else ('module' if tk == 'module' else ('unknown-name' if tk == 'unknown-name' else 'parameter'))
         what = tk + '.' + '+'.join(pl[1] if pl[0] else 'property' for pl in pls)
@@ -791,7 +903,7 @@ def items_ok(cls, ents, errs):
 
 def error_specs(nmod, nerr, contexts=True):
     """all specs of nmod modules with 1..nerr errors in total"""
-    for classes in itertools.product(CLASSES, repeat=nmod):
+    for classes in itertools.product(CLASSES if nmod <= 2 else WIDE_CLASSES, repeat=nmod):
         for total in range(1, nerr + 1):
             for dist in itertools.product(range(total + 1), repeat=nmod):
                 if sum(dist) != total:
@@ -846,7 +958,7 @@ def shard_errors(shard):
 
 def file_specs(tier):
     """module specs for the file path: pairs of modules, valid contexts and single errors"""
-    for c1, c2 in itertools.product(CLASSES, repeat=2):
+    for c1, c2 in itertools.product(FILE_CLASSES, repeat=2):
         for x1 in CONTEXTS[c1]:
             for x2 in CONTEXTS[c2]:
                 yield [[c1, x1, []], [c2, x2, []]]
@@ -858,7 +970,7 @@ def file_specs(tier):
             for e1 in error_sets(c1, 1):
                 for e2 in error_sets(c2, 1):
                     yield [[c1, [], e1], [c2, [], e2]]
-    for c1 in CLASSES:
+    for c1 in FILE_CLASSES:
         for ents in valid_sets(c1, 1):
             yield [[c1, ents, []]]
 
